@@ -487,6 +487,9 @@ func (c *Compiler) isFeatureValid(m parse.Node, n parse.Node, featTree map[strin
 		return false
 	}
 	featTree[featName] = true
+	// featTree is the chain of features currently being followed: a feature that
+	// is reached again through a different branch (a diamond) is not a cycle.
+	defer delete(featTree, featName)
 
 	// Verify each feature that this feature references via an if-feature
 	for _, ifFeat := range n.ChildrenByType(parse.NodeIfFeature) {
